@@ -60,6 +60,7 @@ def check(rep: Report, ctx: Ctx) -> None:
     r514(rep, ctx)
     r515(rep, ctx)
     r516(rep, ctx)
+    r517(rep, ctx)
 
 
 # --------------------------------------------------------------------------
@@ -1251,3 +1252,33 @@ def r516(rep: Report, ctx: Ctx) -> None:
     rep.rule("R5.16", "gate tree -> node logic -> logic block: translation, "
              "initial block state, merge validation, Event -> Node", 28)
     check_table(rep, ctx, "R5.16", TABLE, list(TABLE))
+
+
+def r517(rep: Report, ctx: Ctx) -> None:
+    """A dummy break placeholder directly behind an event node is replaced
+    by a ``break`` on that node: the placeholder leaves the graph, its
+    successor (if any) is re-attached to the event node, and the event node
+    is marked BREAK.  (The general case - the placeholder beneath nested XOR
+    starts - walks a mutable ancestry list and is outside what role
+    expressions describe; only R5.4 "the sink runs before the writer"
+    covers it.)"""
+    from .effspec import effects, expect
+    rep.rule("R5.17", "a dummy break directly behind an event node becomes a "
+             "break on that node", 3)
+    fi = ctx.func("update_graph_for_dummy_break_event_node")
+    effs = effects(ctx, fi)
+    D = "P:dummy_break_event_node"
+    IN = f"list(P:graph.in_edges([{D}]))[0][0]"
+    OUT = f"(list(P:graph.out_edges([{D}]))[0][1] if list(P:graph.out_edges(" \
+          f"[{D}])) else None)"
+    simple = ("truth", f"isinstance({IN},PUMLEventNode)", "1")
+    expect(rep, "R5.17", fi, effs, "the placeholder leaves the graph",
+           name="remove_node", recv="P:graph", args=(D,), must=[simple])
+    expect(rep, "R5.17", fi, effs, "what followed the placeholder follows "
+           "the event node", name="add_puml_edge", recv="P:graph",
+           args=(IN, OUT), must=[simple, ("cmp", OUT, "Is", "None", "0")])
+    expect(rep, "R5.17", fi, effs, "the event node is marked BREAK",
+           kind="store", name="", recv=f"{IN}.event_types",
+           args=(f"(*{D}.event_types,PUMLEvent.BREAK)",),
+           alt_args=[(f"(*{IN}.event_types,PUMLEvent.BREAK)",)],
+           must=[simple])
